@@ -7,6 +7,7 @@ import (
 
 	"github.com/cinar/indicator/v2/asset"
 	"github.com/cinar/indicator/v2/strategy"
+	"github.com/cinar/indicator/v2/strategy/compound"
 	sm "github.com/cinar/indicator/v2/strategy/momentum"
 	st "github.com/cinar/indicator/v2/strategy/trend"
 	sv "github.com/cinar/indicator/v2/strategy/volatility"
@@ -214,6 +215,14 @@ func ruleModel(s strategy.Strategy, snaps []*asset.Snapshot, stt *Stats) (want [
 	}
 	c, h, l, o, v := e.col('c'), e.col('h'), e.col('l'), e.col('o'), e.col('v')
 	switch t := s.(type) {
+	case *strategy.BuyAndHoldStrategy:
+		for i := 0; i < n; i++ {
+			if i == 0 {
+				set(i, only(strategy.Buy))
+			} else {
+				set(i, only(strategy.Hold))
+			}
+		}
 	case *st.AlligatorStrategy:
 		jaw, teeth, lip := e.run1(t.Jaw, c), e.run1(t.Teeth, c), e.run1(t.Lip, c)
 		each(func(_ int, x []float64) verdict {
@@ -308,6 +317,44 @@ func ruleModel(s strategy.Strategy, snaps []*asset.Snapshot, stt *Stats) (want [
 		each(func(_ int, x []float64) verdict { return twoWay(x[0] < x[1], x[0] > x[1]) }, nvi, ema)
 	case *so.WeightedAveragePriceStrategy:
 		each(func(_ int, x []float64) verdict { return twoWay(x[1] > x[0], x[1] < x[0]) }, c, e.run1(t.WeightedAveragePrice, c, v))
+	case *compound.MacdRsiStrategy:
+		// both members' positions (their rule verdicts, a Buy or Sell standing until the opposite
+		// one) have to agree; the comparison ends where a member's verdict is not unique
+		ma, ok1 := ruleModel(t.MacdStrategy, snaps, stt)
+		ra, ok2 := ruleModel(t.RsiStrategy, snaps, stt)
+		if !ok1 || !ok2 {
+			return nil, false
+		}
+		lastM, lastR := strategy.Hold, strategy.Hold
+		pick := func(v *verdict) (strategy.Action, bool) {
+			switch {
+			case v == nil || *v == only(strategy.Hold):
+				return strategy.Hold, true
+			case *v == only(strategy.Buy):
+				return strategy.Buy, true
+			case *v == only(strategy.Sell):
+				return strategy.Sell, true
+			}
+			return strategy.Hold, false
+		}
+		for i := 0; i < n; i++ {
+			a, okA := pick(ma[i])
+			b, okB := pick(ra[i])
+			if !okA || !okB {
+				break
+			}
+			if a != strategy.Hold {
+				lastM = a
+			}
+			if b != strategy.Hold {
+				lastR = b
+			}
+			if lastM == lastR {
+				set(i, only(lastM))
+			} else {
+				set(i, only(strategy.Hold))
+			}
+		}
 	default:
 		return nil, false
 	}
